@@ -119,17 +119,49 @@ def r2(run: Run, src, cg):
     if iss is None:
         raise AnalysisError('C19.R2', 'Excel.is_safe not found')
     body = [s for s in iss.node.body if not (isinstance(s, ast.Expr) and isinstance(s.value, ast.Constant))]
-    ok = len(body) == 1 and isinstance(body[0], ast.If) and isinstance(body[0].test, ast.Attribute) and \
-        'suspicious' in body[0].test.attr and len(body[0].body) == 1 and isinstance(body[0].body[0], ast.Raise) and not body[0].orelse
+
+    def nonempty(t):
+        """(map expression, polarity) when `t` tests a collection for (non-)emptiness: X, bool(X), len(X) > 0, len(X) != 0,
+        len(X) >= 1, X != {}  (polarity True)  /  not X, len(X) == 0, X == {}  (polarity False)"""
+        if isinstance(t, ast.UnaryOp) and isinstance(t.op, ast.Not):
+            r = nonempty(t.operand)
+            return None if r is None else (r[0], not r[1])
+        if isinstance(t, ast.Attribute):
+            return (t, True)
+        if isinstance(t, ast.Call) and isinstance(t.func, ast.Name) and t.func.id == 'bool' and len(t.args) == 1:
+            return nonempty(t.args[0])
+        if isinstance(t, ast.Compare) and len(t.ops) == 1:
+            l, r, op = t.left, t.comparators[0], t.ops[0]
+            if isinstance(l, ast.Call) and isinstance(l.func, ast.Name) and l.func.id == 'len' and len(l.args) == 1 and \
+                    isinstance(l.args[0], ast.Attribute) and isinstance(r, ast.Constant) and isinstance(r.value, int):
+                table = {(ast.Gt, 0): True, (ast.NotEq, 0): True, (ast.GtE, 1): True, (ast.Eq, 0): False, (ast.Lt, 1): False,
+                         (ast.LtE, 0): False}
+                if (type(op), r.value) in table:
+                    return (l.args[0], table[(type(op), r.value)])
+            if isinstance(l, ast.Attribute) and isinstance(r, ast.Dict) and not r.keys and isinstance(op, (ast.Eq, ast.NotEq)):
+                return (l, isinstance(op, ast.NotEq))
+        return None
+    ok = False
+    raise_stmt = map_expr = None
+    if len(body) == 1 and isinstance(body[0], ast.If) and not body[0].orelse and len(body[0].body) == 1 and \
+            isinstance(body[0].body[0], ast.Raise):
+        ne = nonempty(body[0].test)
+        if ne is not None and ne[1] and 'suspicious' in ne[0].attr:
+            ok, raise_stmt, map_expr = True, body[0].body[0], ne[0]
+    elif len(body) == 2 and isinstance(body[0], ast.If) and not body[0].orelse and len(body[0].body) == 1 and \
+            isinstance(body[0].body[0], ast.Return) and isinstance(body[1], ast.Raise):
+        ne = nonempty(body[0].test)                       # if not <map>: return / raise ...
+        if ne is not None and not ne[1] and 'suspicious' in ne[0].attr:
+            ok, raise_stmt, map_expr = True, body[1], ne[0]
     run.check(ok, 'C19.R2', 'Excel.is_safe/shape', 'is-safe-shape',
-              'is_safe is not `if <collected map>: raise E2PyclSafetyException(...)`', fact='raises iff the map is non-empty',
+              'is_safe does not raise E2PyclSafetyException exactly when the collected map is non-empty', fact='raises iff the map is non-empty',
               loc=loc_of(iss.module.path, iss.node))
     if ok:
-        r = body[0].body[0]
+        r = raise_stmt
         call = r.exc
         kw = {k.arg: ast.unparse(k.value) for k in call.keywords} if isinstance(call, ast.Call) else {}
         run.check(isinstance(call, ast.Call) and getattr(call.func, 'id', '') == 'E2PyclSafetyException' and
-                  kw.get('suspicious_cells') == ast.unparse(body[0].test), 'C19.R2', 'Excel.is_safe/payload', 'payload',
+                  kw.get('suspicious_cells') == ast.unparse(map_expr), 'C19.R2', 'Excel.is_safe/payload', 'payload',
                   f'the exception is raised as `{ast.unparse(call)[:80]}`; it must carry the collected map unchanged',
                   fact='suspicious_cells=<the map>', loc=loc_of(iss.module.path, r))
     # the exception is raised nowhere else
